@@ -310,6 +310,7 @@ namespace vf {
 
 #include <csignal>
 #include <unistd.h>
+#include "prelude.hpp"
 namespace vf {
    inline void crash_signal(int sig)
    {
@@ -339,6 +340,9 @@ namespace vf {
       if (const char* h = std::getenv("VERIF_HANG_S")) const_cast<Options&>(o).hang_s = unsigned(std::atoi(h));
       const_cast<Options&>(o).watchdog = o.replay.empty();
       if (o.watchdog) { const_cast<Options&>(o).last_kick = std::chrono::steady_clock::now() - std::chrono::seconds(10); o.kick(); }
+      // VERIF_PRELUDE=1: a decoy Lexicon lives and dies, a second one stays alive, before the exploration starts (prelude.hpp);
+      // the handlers above are already in place, so a crash or hang in there is reported like any other.
+      prelude();
    }
 }
 
